@@ -78,4 +78,261 @@ theorem decode_nonascii {b0 : UInt8} {rest : Bytes} {r w : Nat} (h0 : 0x80 ≤ b
             rcases hb with rfl | rfl | rfl | rfl <;> omega
           · cases h
         · cases h
+
+theorem take_eq_cons2 {t : Bytes} {a b : UInt8} {l : Bytes} (h : t.take 2 = (a :: b :: l).take 2) :
+    ∃ t', t = a :: b :: t' := by
+  match t, h with
+  | x :: y :: t', h => simp at h; exact ⟨t', by rw [h.1, h.2]⟩
+  | [x], h => simp at h
+  | [], h => simp at h
+
+theorem take_eq_cons3 {t : Bytes} {a b c : UInt8} {l : Bytes} (h : t.take 3 = (a :: b :: c :: l).take 3) :
+    ∃ t', t = a :: b :: c :: t' := by
+  match t, h with
+  | x :: y :: z :: t', h => simp at h; exact ⟨t', by rw [h.1, h.2.1, h.2.2]⟩
+  | [x, y], h => simp at h
+  | [x], h => simp at h
+  | [], h => simp at h
+
+theorem take_eq_cons4 {t : Bytes} {a b c d : UInt8} {l : Bytes} (h : t.take 4 = (a :: b :: c :: d :: l).take 4) :
+    ∃ t', t = a :: b :: c :: d :: t' := by
+  match t, h with
+  | x :: y :: z :: u :: t', h => simp at h; exact ⟨t', by rw [h.1, h.2.1, h.2.2.1, h.2.2.2]⟩
+  | [x, y, z], h => simp at h
+  | [x, y], h => simp at h
+  | [x], h => simp at h
+  | [], h => simp at h
+
+/-- `decode` looks only at the bytes of the rune it returns. -/
+theorem decode_congr {s t : Bytes} {r w : Nat} (h : Utf8.decode s = some (r, w)) (ht : t.take w = s.take w) :
+    Utf8.decode t = some (r, w) := by
+  unfold Utf8.decode at h
+  split at h
+  · cases h
+  · rename_i b0 rest
+    simp only at h
+    split at h
+    · rename_i hlt
+      simp only [Option.some.injEq, Prod.mk.injEq] at h
+      obtain ⟨rfl, rfl⟩ := h
+      match t, ht with
+      | x :: t', ht =>
+        simp at ht; subst ht
+        unfold Utf8.decode; simp [hlt]
+      | [], ht => simp at ht
+    · split at h
+      · cases h
+      · split at h
+        · split at h
+          · rename_i b1 tl
+            obtain ⟨hc, hv⟩ := ite_some_inv _ _ _ h
+            simp only [Prod.mk.injEq] at hv
+            obtain ⟨rfl, rfl⟩ := hv
+            obtain ⟨t', rfl⟩ := take_eq_cons2 ht
+            unfold Utf8.decode; simp [*]
+          · cases h
+        · split at h
+          · split at h
+            · rename_i b1 b2 tl
+              obtain ⟨hc, hv⟩ := ite_some_inv _ _ _ h
+              simp only [Prod.mk.injEq] at hv
+              obtain ⟨rfl, rfl⟩ := hv
+              obtain ⟨t', rfl⟩ := take_eq_cons3 ht
+              unfold Utf8.decode; simp only [*, if_false, if_true]
+            · cases h
+          · split at h
+            · split at h
+              · rename_i b1 b2 b3 tl
+                obtain ⟨hc, hv⟩ := ite_some_inv _ _ _ h
+                simp only [Prod.mk.injEq] at hv
+                obtain ⟨rfl, rfl⟩ := hv
+                obtain ⟨t', rfl⟩ := take_eq_cons4 ht
+                unfold Utf8.decode; simp only [*, if_false, if_true]
+              · cases h
+            · cases h
+
+
+/-- Prefix stability of `decodeRune`: cutting the input anywhere at or after the end of the first rune
+    does not change what is decoded. -/
+theorem decodeRune_prefix {p x : Bytes} (hw : (Utf8.decodeRune (p ++ x)).2 ≤ p.length) :
+    Utf8.decodeRune p = Utf8.decodeRune (p ++ x) := by
+  unfold Utf8.decodeRune at hw ⊢
+  cases h : Utf8.decode (p ++ x) with
+  | some rw =>
+    obtain ⟨r, w⟩ := rw
+    rw [h] at hw
+    simp only at hw
+    have : Utf8.decode p = some (r, w) := decode_congr h (by rw [List.take_append_of_le_length hw])
+    rw [this]
+  | none =>
+    cases h2 : Utf8.decode p with
+    | none => rfl
+    | some rw =>
+      obtain ⟨r, w⟩ := rw
+      have hwid := (decode_width h2).2
+      have : Utf8.decode (p ++ x) = some (r, w) := decode_congr h2 (by rw [List.take_append_of_le_length hwid])
+      rw [this] at h; cases h
+
+/-- shape of one decoding step: an ASCII byte is its own rune of width 1; anything else yields a rune
+    ≥ 0x80 (possibly RuneError) and consumes only bytes ≥ 0x80. -/
+theorem decodeRune_cases (b0 : UInt8) (rest : Bytes) :
+    (b0.toNat < 0x80 ∧ Utf8.decodeRune (b0 :: rest) = (b0.toNat, 1)) ∨
+    (0x80 ≤ b0.toNat ∧ 0x80 ≤ (Utf8.decodeRune (b0 :: rest)).1 ∧
+      ∀ b ∈ (b0 :: rest).take (Utf8.decodeRune (b0 :: rest)).2, 0x80 ≤ b.toNat) := by
+  by_cases h : b0.toNat < 0x80
+  · exact Or.inl ⟨h, decodeRune_ascii b0 rest h⟩
+  · refine Or.inr ⟨by omega, ?_⟩
+    unfold Utf8.decodeRune
+    cases hd : Utf8.decode (b0 :: rest) with
+    | some rw =>
+      obtain ⟨r, w⟩ := rw
+      exact decode_nonascii (by omega) hd
+    | none =>
+      refine ⟨by simp [Utf8.runeError], ?_⟩
+      intro b hb
+      simp at hb
+      subst hb; omega
+
+/-- `decodeRune_newline`: the bytes of one decoded rune contain a newline byte exactly when the rune is
+    the newline, and then they are that single byte. -/
+theorem decodeRune_newline (s : Bytes) (hs : s ≠ []) :
+    (s.take (Utf8.decodeRune s).2).count 10 = if (Utf8.decodeRune s).1 = 10 then 1 else 0 := by
+  match s, hs with
+  | b0 :: rest, _ =>
+    rcases decodeRune_cases b0 rest with ⟨hlt, heq⟩ | ⟨hge, hr, hall⟩
+    · rw [heq]
+      simp only [List.take_succ_cons, List.take_zero, List.count_cons, List.count_nil, Nat.zero_add]
+      by_cases hb : b0 = 10
+      · subst hb; decide
+      · have : b0.toNat ≠ 10 := by
+          intro h; apply hb; exact UInt8.toNat_inj.mp h
+        simp [hb, this]
+    · have h1 : (Utf8.decodeRune (b0 :: rest)).1 ≠ 10 := by omega
+      simp only [h1, if_false]
+      apply List.count_eq_zero.mpr
+      intro hmem
+      have := hall 10 hmem
+      simp at this
+
+theorem decodeRune_eq_newline {s : Bytes} (hs : s ≠ []) (h : (Utf8.decodeRune s).1 = 10) :
+    s.take (Utf8.decodeRune s).2 = [10] := by
+  match s, hs with
+  | b0 :: rest, _ =>
+    rcases decodeRune_cases b0 rest with ⟨hlt, heq⟩ | ⟨hge, hr, hall⟩
+    · rw [heq] at h ⊢
+      simp only at h
+      have : b0 = 10 := UInt8.toNat_inj.mp h
+      subst this; rfl
+    · omega
+
+theorem decodeRune_ne_newline {s : Bytes} (hs : s ≠ []) (h : (Utf8.decodeRune s).1 ≠ 10) :
+    ∀ b ∈ s.take (Utf8.decodeRune s).2, b ≠ 10 := by
+  intro b hb hb10
+  subst hb10
+  have := decodeRune_newline s hs
+  simp only [h, if_false] at this
+  exact (List.count_eq_zero.mp this) hb
+
+
+/-! ### runeCount -/
+
+theorem runeCountAux_acc : ∀ (fuel : Nat) (s : Bytes) (n : Nat),
+    GoStrings.runeCountAux fuel s n = n + GoStrings.runeCountAux fuel s 0 := by
+  intro fuel
+  induction fuel with
+  | zero => intro s n; simp [GoStrings.runeCountAux]
+  | succ k ih =>
+    intro s n
+    cases s with
+    | nil => simp [GoStrings.runeCountAux]
+    | cons a t =>
+      simp only [GoStrings.runeCountAux]
+      rw [ih _ (n + 1), ih _ (0 + 1)]
+      omega
+
+theorem runeCountAux_fuel : ∀ (fuel : Nat) (s : Bytes), s.length ≤ fuel →
+    GoStrings.runeCountAux fuel s 0 = GoStrings.runeCountAux s.length s 0 := by
+  intro fuel
+  induction fuel using Nat.strongRecOn with
+  | _ fuel ih =>
+    intro s hle
+    cases s with
+    | nil => cases fuel <;> simp [GoStrings.runeCountAux]
+    | cons a t =>
+      cases fuel with
+      | zero => simp at hle
+      | succ k =>
+        have hw := decodeRune_width (a :: t) (by simp)
+        simp only [GoStrings.runeCountAux, List.length_cons]
+        rw [runeCountAux_acc k, runeCountAux_acc t.length]
+        have hlen : ((a :: t).drop (Utf8.decodeRune (a :: t)).2).length ≤ t.length := by
+          simp only [List.length_drop, List.length_cons]; omega
+        simp only [List.length_cons] at hle
+        rw [ih k (by omega) _ (by omega), ih t.length (by omega) _ hlen]
+
+theorem runeCount_nil : GoStrings.runeCount [] = 0 := rfl
+
+theorem runeCount_step {s : Bytes} (hs : s ≠ []) :
+    GoStrings.runeCount s = 1 + GoStrings.runeCount (s.drop (Utf8.decodeRune s).2) := by
+  match s, hs with
+  | a :: t, _ =>
+    have hw := decodeRune_width (a :: t) (by simp)
+    unfold GoStrings.runeCount
+    simp only [List.length_cons, GoStrings.runeCountAux]
+    rw [runeCountAux_acc]
+    have hlen : ((a :: t).drop (Utf8.decodeRune (a :: t)).2).length ≤ t.length := by
+      simp only [List.length_drop, List.length_cons]; omega
+    rw [runeCountAux_fuel t.length _ hlen]
+
+/-- `Aligned s k n`: decoding `s` rune by rune reaches byte offset `k` after exactly `n` runes. -/
+inductive Aligned : Bytes → Nat → Nat → Prop
+  | zero (s : Bytes) : Aligned s 0 0
+  | step {s : Bytes} {k n : Nat} : s ≠ [] → Aligned (s.drop (Utf8.decodeRune s).2) k n →
+      Aligned s ((Utf8.decodeRune s).2 + k) (n + 1)
+
+theorem Aligned.le {s : Bytes} {k n : Nat} (h : Aligned s k n) : k ≤ s.length := by
+  induction h with
+  | zero s => omega
+  | @step s k n hs _ ih =>
+    have := decodeRune_width s hs
+    simp only [List.length_drop] at ih
+    omega
+
+/-- one more rune at the end -/
+theorem Aligned.snoc {s : Bytes} {k n : Nat} (h : Aligned s k n) (hk : s.drop k ≠ []) :
+    Aligned s (k + (Utf8.decodeRune (s.drop k)).2) (n + 1) := by
+  induction h with
+  | zero s =>
+    have : s ≠ [] := by simpa using hk
+    simpa using Aligned.step this (Aligned.zero _)
+  | @step s k n hs _ ih =>
+    rw [← List.drop_drop] at hk ⊢
+    have := Aligned.step hs (ih hk)
+    rw [Nat.add_assoc]
+    exact this
+
+/-- the number of runes of an aligned prefix -/
+theorem Aligned.runeCount {s : Bytes} {k n : Nat} (h : Aligned s k n) : GoStrings.runeCount (s.take k) = n := by
+  induction h with
+  | zero s => simp [runeCount_nil]
+  | @step s k n hs hrest ih =>
+    have hw := decodeRune_width s hs
+    have hk := hrest.le
+    simp only [List.length_drop] at hk
+    have hne : s.take ((Utf8.decodeRune s).2 + k) ≠ [] := by
+      intro h0
+      have := congrArg List.length h0
+      simp only [List.length_take, List.length_nil] at this
+      have : 0 < s.length := List.length_pos_iff.mpr hs
+      omega
+    have hsplit : s = s.take ((Utf8.decodeRune s).2 + k) ++ s.drop ((Utf8.decodeRune s).2 + k) :=
+      (List.take_append_drop _ _).symm
+    have hpre : Utf8.decodeRune (s.take ((Utf8.decodeRune s).2 + k)) = Utf8.decodeRune s := by
+      have := @decodeRune_prefix (s.take ((Utf8.decodeRune s).2 + k)) (s.drop ((Utf8.decodeRune s).2 + k))
+        (by rw [← hsplit, List.length_take]; omega)
+      rw [← hsplit] at this
+      exact this
+    rw [runeCount_step hne, hpre, List.drop_take, Nat.add_sub_cancel_left, ih]
+    omega
+
 end ModVerif.Proofs.ModfileC20Utf8
